@@ -98,7 +98,8 @@ PROPS = {
                         B("general", "general", 40, 400)]},
     "C08": {"batches": [B("lag", "lag", 180, 1800), B("general", "general", 100, 1000)]},
     "C09": {"batches": [B("general", "general", 100, 1000), B("election", "election", 80, 800),
-                        B("membership", "membership", 80, 800), B("lag", "lag", 40, 400)]},
+                        B("membership", "membership", 80, 800), B("lag", "lag", 40, 400),
+                        B("membership_promotions_exposed", "membership", 100, 1000, masks=["snapshot_install"])]},
     "C10": {"batches": [B("durability", "durability", 160, 1600), B("general", "general", 100, 1000),
                         B("election", "election", 40, 400)]},
     "C11": {"batches": [B("lease", "lease", 200, 2000), B("general", "general", 80, 800)]},
